@@ -24,7 +24,7 @@ MODES = {
     'C05': ['budget', 'corpus'],
     'C10': ['nopanic', 'allbuiltins', 'builtins_np'],
     'C08': ['flat', 'datacodec'],
-    'C11': ['debruijn', 'interner'],
+    'C11': ['debruijn', 'interner', 'named'],
     'C16': ['shrinker'],
 }
 
